@@ -161,6 +161,14 @@ func IteUint(c bool, a, b uint) uint {
 	return b
 }
 
+// InEngine is true only inside the symbolic engine (lets a harness read an engine-side model's record
+// where the native run decodes the real output instead).
+func InEngine() bool { return false }
+
+// ExactIntFloats tells the engine that every float64 in this harness is an integer of magnitude
+// below 2^53 (range-checked on every operation), so float64 is encoded as int64. Call it first.
+func ExactIntFloats() {}
+
 func MustCover(fn ...string)     {}
 func Bound(name string, n int)   {}
 func SelectAll(on bool)          {}
